@@ -226,6 +226,12 @@ theorem constructStep_ok (sch : Schema) (next : Nat) : (c : TC) → verifyStep s
     simp only [verifyStep, Bool.and_eq_true] at h
     obtain ⟨i, hi, _⟩ := keyVerify_ok sch key h.1
     exact ⟨.parseTime i, next, by simp [constructStep, bind, Except.bind, hi, pure, Except.pure], by simp [stepWF]⟩
+  | .regex key patternOK captures, h => by
+    simp only [verifyStep, Bool.and_eq_true] at h
+    obtain ⟨i, hi, _⟩ := keyVerify_ok sch key h.1.1
+    obtain ⟨ds, hd⟩ := keys_ok sch captures h.2
+    have hp : patternOK = true := h.1.2
+    exact ⟨.opaque i ds, next, by simp [constructStep, bind, Except.bind, hi, hd, hp, pure, Except.pure], by simp [stepWF]⟩
 
 theorem constructSteps_ok (sch : Schema) (next : Nat) : (l : List TC) → verifySteps sch l = true →
     BuiltSteps sch (constructSteps sch next l)
